@@ -64,15 +64,16 @@ def make_prog(clock, items, yields, outside=None, second=None):
     main = [['play', 'r0', clock, 0]]
     used = {clock}
     if second:
-        c2, items2, y2 = second
-        b2 = []
-        for i, it in enumerate(items2):
-            b2.append(stmt(it))
-            if i < len(y2):
-                b2.append(['yield', y2[i]])
-        routines['r1'] = b2
-        main.append(['play', 'r1', c2, 0])
-        used.add(c2)
+        more = second if isinstance(second, list) else [second]
+        for n, (c2, items2, y2) in enumerate(more):
+            b2 = []
+            for i, it in enumerate(items2):
+                b2.append(stmt(it))
+                if i < len(y2):
+                    b2.append(['yield', y2[i]])
+            routines[f'r{n + 1}'] = b2
+            main.append(['play', f'r{n + 1}', c2, 0])
+            used.add(c2)
     if outside:
         for dt, it in outside:
             main.append(['sleep', dt])
@@ -83,6 +84,35 @@ def make_prog(clock, items, yields, outside=None, second=None):
     return {'clocks': clocks, 'routines': routines, 'funcs': {},
             'actors': {'main': main},
             'horizon': 2.0 * sum(yields) + 3.0}
+
+
+A3 = [('send', None), ('send', 0), ('send', 0.25), ('sendm',),
+      ('sendb', 0, 0.5), ('sendb', 0.25, 0), ('sendb', None, None)]
+
+
+def programs3(mode):
+    """Larger family: every 3-send routine over a reduced alphabet, and
+    three routines whose bundles tie in time across routines and clocks."""
+    out = []
+    clocks = ['s', 't2'] if mode == 'rt' else ['s', 't2', 'a']
+    for c in clocks:
+        for a in A3:
+            for b in A3:
+                for x in A3:
+                    for d1 in (0, 0.25):
+                        for d2 in (0, 0.25):
+                            out.append(make_prog(c, [a, b, x], [d1, d2]))
+    tie = [('send', 0.25), ('send', 0), ('sendb', 0.25, 0.5), ('sendm',)]
+    for c1 in clocks:
+        for c2 in clocks:
+            for a in tie:
+                for b in tie:
+                    for x in tie:
+                        out.append(make_prog(
+                            's', [a, ('send', 0)], [0.25],
+                            second=[(c1, [b, ('send', 0.25)], [0.25]),
+                                    (c2, [('send', 0.25), x], [0.25])]))
+    return out
 
 
 def programs(tier, mode):
@@ -487,7 +517,7 @@ def main(ctx):
         'Programs: a routine on SystemClock/TempoClock(2) (NRT also AppClock) '
         'sending 1-2 of {send_bundle(L), send_msg, nested bundle (L, L2)} '
         'with L in {None,-1,0,0.25}, separated by yields {0,0.25}; two '
-        'routines sending at equal times; sends from outside routines at '
+        'routines sending at equal times; every 3-send routine over a 7-statement alphabet and three routines on all clock combinations whose bundles tie in time (quick: a seed-selected 1/8 resp. 1/4 slice); sends from outside routines at '
         'instants where no task is due; incoming bundles with five timetag '
         'variants. RT: every schedule with <=P preemptions and <=L late '
         'timers, datagrams decoded with mc/oracles/osc10.py; NRT: score list '
@@ -501,6 +531,11 @@ def main(ctx):
         'expected())']
     rt = programs(ctx.tier, 'rt') + recv_programs()
     nrt = programs(ctx.tier, 'nrt')
+    rt3, nrt3 = programs3('rt'), programs3('nrt')
+    if ctx.tier == 'quick':
+        rt3 = rt3[core.pick_slice(ctx.seed, 8)::8]
+        nrt3 = nrt3[core.pick_slice(ctx.seed, 4)::4]
+    rt, nrt = rt + rt3, nrt + nrt3
     bounds = [(2, 1)] if ctx.tier == 'quick' else [(3, 2)]
     for mp, ml in bounds:
         jobs = [{'progs': c, 'max_pre': mp, 'max_late': ml}
